@@ -28,8 +28,8 @@
 (* given back when its scope is done (Close / Reset of the stream).        *)
 (*                                                                         *)
 (* The rate limiter keys on the remote ADDRESS, not the peer: identities   *)
-(* behind one address share a bucket; loopback is exempt; an address that  *)
-(* is not IP is refused outright.  A bucket is dropped from the heap once  *)
+(* behind one address share a bucket; loopback is exempt; addresses that   *)
+(* are not IP all share one bucket.  A bucket is dropped from the heap once *)
 (* it has been full for Grace ticks -- by then it is indistinguishable     *)
 (* from a new one, so, unlike the RPC server's LRU eviction, dropping it   *)
 (* never grants anything (ExpiryGrantsNothing, WindowBound).  The heap has *)
@@ -40,7 +40,10 @@ EXTENDS Integers, Sequences, FiniteSets, TLC
 
 CONSTANTS
     Peers, Protos, Streams,   \* Streams: a set of naturals (identities handed out smallest-first)
-    PeerIP,                   \* [Peers -> address]; the addresses "lo" (loopback) and "none" (no IP) are special
+    PeerIP,                   \* [Peers -> address]; "lo" is loopback (exempt); "none" stands for every remote address that
+                              \* does not start with an IP component: remoteIP maps them all to the invalid address, whose
+                              \* prefix is the zero prefix -- ONE shared bucket (they are NOT refused, whatever the comment
+                              \* on remoteIP says: netip.Addr{}.Prefix() returns no error)
     Need,                     \* [Protos -> memory units ReserveMemory asks for] (requestID.ResponseSize)
     ProtoLim, ProtoPeerLim,   \* [Protos -> inbound streams]  (AddProtocolLimit / AddProtocolPeerLimit)
     SvcLim, SvcPeerLim,       \* inbound streams              (AddServiceLimit / AddServicePeerLimit)
@@ -49,10 +52,11 @@ CONSTANTS
     RateOn,                   \* FALSE: CELESTIA_SHREX_DISABLE_RATE_LIMITING=1 (rateLimiter == nil)
     Atomic,                   \* TRUE: a handler runs from one gate to the next without interleaving
     CloseOnLimit,             \* TRUE = the code: a refused stream is reset (its scope is done); FALSE: defect configuration
+    Hows,                     \* ways a response ends, subset of {"served", "failed", "panicked"}
     WatchTime
 
 IPs == {PeerIP[p] : p \in Peers}
-Limited(ip) == ip \notin {"lo", "none"}
+Limited(ip) == ip # "lo"
 
 VARIABLES
     st,        \* [Streams -> [stage, peer, proto]], stage \in
@@ -156,7 +160,7 @@ RateCheck(s) ==
     /\ lab' = [op |-> "rate", s |-> s]
     /\ LET ip == PeerIP[st[s].peer]
            b == IF bkt[ip].on THEN bkt[ip] ELSE [on |-> TRUE, tok |-> Burst, exp |-> Grace]
-           ok == ~RateOn \/ ip = "lo" \/ (ip # "none" /\ b.tok >= 1)
+           ok == ~RateOn \/ ip = "lo" \/ b.tok >= 1
        IN /\ IF ok
              THEN /\ st' = [st EXCEPT ![s].stage = "svc"] /\ out' = "handling"
                   /\ UNCHANGED <<cProto, cProtoPeer, cSvc, cSvcPeer, mSvc, mSvcPeer>>
@@ -226,7 +230,7 @@ SysNext ==
     \/ \E s \in Streams, p \in Peers, q \in Protos : Open(s, p, q)
     \/ \E s \in Streams : Handle(s) \/ SetService(s) \/ RateCheck(s) \/ Reserve(s) \/ RemoteReset(s)
     \/ \E s \in Streams, go \in {"reserve", "end"} : StoreAnswers(s, go)
-    \/ \E s \in Streams, how \in {"served", "failed", "panicked"} : Finish(s, how)
+    \/ \E s \in Streams, how \in Hows : Finish(s, how)
     \/ Tick
 Next == SysNext \/ \E i \in IPs : StartWatch(i)
 
@@ -295,7 +299,7 @@ FairSpec ==
     /\ \A s \in Streams : WF_vars(SetService(s) \/ RateCheck(s) \/ Reserve(s))
     /\ \A s \in Streams : WF_vars(Handle(s))
     /\ \A s \in Streams : WF_vars(\E go \in {"reserve", "end"} : StoreAnswers(s, go))
-    /\ \A s \in Streams : WF_vars(\E how \in {"served", "failed", "panicked"} : Finish(s, how))
+    /\ \A s \in Streams : WF_vars(\E how \in Hows : Finish(s, how))
     /\ WF_vars(Tick)
 StreamsEnd == \A s \in Streams : (st[s].stage # "free") ~> (st[s].stage = "free")
 ServiceSlotsComeBack == (cSvc = SvcLim) ~> (cSvc < SvcLim)
@@ -307,14 +311,20 @@ MemoryComesBack == (mSvc > 0) ~> (mSvc = 0)
 (* class of the remote multiaddr -> how the limiter treats it:             *)
 (*   "bucket:<k>"  limited, shares the bucket k                            *)
 (*   "exempt"      loopback (127.0.0.0/8, ::1)                             *)
-(*   "denied"      no IP in the address (relay, dns): Allow returns false  *)
+(* An address that does not START with an IP component (dns) becomes the   *)
+(* invalid netip.Addr; its Prefix() is the zero prefix WITHOUT an error,   *)
+(* so all such addresses share one bucket "NOIP" (the comment on remoteIP  *)
+(* claims they are refused).                                               *)
+(* A circuit-relay address starts with the RELAY's IP, so manet.ToIP       *)
+(* yields that: relayed peers are not denied (as the comment on remoteIP   *)
+(* says) but share the bucket of their relay's address.                    *)
 (***************************************************************************)
-AddrClasses == {"ip4", "ip4other", "ip4mapped6", "ip6", "ip6other", "lo4", "lo4high", "lo6", "relay", "dns", "quic4"}
+AddrClasses == {"ip4", "ip4other", "ip4mapped6", "quic4", "relayvia4", "ip6", "ip6other", "lo4", "lo4high", "lo6", "dns", "dnsother"}
 Treatment(c) ==
-    CASE c \in {"ip4", "ip4mapped6", "quic4"} -> "bucket:A4"     \* ::ffff:a.b.c.d is unmapped: the same bucket as a.b.c.d
+    CASE c \in {"ip4", "ip4mapped6", "quic4", "relayvia4"} -> "bucket:A4"   \* ::ffff:a.b.c.d is unmapped: the bucket of a.b.c.d
       [] c = "ip4other"                       -> "bucket:B4"
       [] c = "ip6"                            -> "bucket:A6"
       [] c = "ip6other"                       -> "bucket:B6"
       [] c \in {"lo4", "lo4high", "lo6"}      -> "exempt"
-      [] c \in {"relay", "dns"}               -> "denied"
+      [] c \in {"dns", "dnsother"}            -> "bucket:NOIP"
 =============================================================================
